@@ -14,7 +14,7 @@ NMAX, MMAX, WMAX = 256, 64, 24
 
 CLASS_POOL = [
     list(range(9)), [8, 3, 5, 1], [2, 4, 6], [7, 0, 3, 9, 1], list(range(4)), list(range(12)),
-    [0, 1], [1, 2, 3, 4], [3, 1, 2, 0], [0, 300, 7], list(range(2, 11)),
+    [0, 1], [1, 2, 3, 4], [3, 1, 2, 0], [0, 300, 7], list(range(2, 11)), [0, 2, 1, 3], [0, 3, 1, 2, 4],
 ]
 BAD_KINDS = ['rows', 'length', 'words', 'type_traces', 'type_data', 'float_data', 'first_range', 'neg_auto',
              'lowmem', 'not_built', 'tpl_two_words']
@@ -166,9 +166,9 @@ def gen_history(seed, tier, prop, kinds_allowed):
     if kind == 'mia':
         regime = 'exact' if r.random() < 0.7 else 'float'
     if regime == 'exact':
-        dts = ['uint8', 'float32']
+        dts = ['uint8', 'float32', 'int16']
         if thorough or not numba_kind:
-            dts += ['int8', 'int16', 'float64']
+            dts += ['int8', 'float64']
         tdtype = r.choice(dts)
     else:
         tdtype = r.choice(['float32', 'float64'] if (thorough or not numba_kind) else ['float32'])
@@ -223,7 +223,8 @@ def gen_history(seed, tier, prop, kinds_allowed):
             scn['pool'] = list(scn['pool'])[:3]
     elif kind in ('tstatic', 'tdpa'):
         k = r.randint(2, 5)
-        cl = r.choice([list(range(k)), list(range(k)), [c + 2 for c in range(k)], list(range(k))[::-1], [3 * c + 1 for c in range(k)]])
+        cl = r.choice([list(range(k)), list(range(k)), [c + 2 for c in range(k)], list(range(k))[::-1], [3 * c + 1 for c in range(k)],
+                       [0] + list(range(1, k - 1))[::-1] + [k - 1]])
         m = r.randint(1, 5)
         scn['build'] = {'classes': cl, 'L': m, 'seed': rng.H(seed, 'build'), 'per_class': r.randint(3, 8),
                         'dtype': 'float32'}
